@@ -7,6 +7,10 @@ ROOT = os.path.dirname(os.path.dirname(os.path.abspath(__file__)))
 
 # id -> (technique, level text, level note, design ref)
 CHECKS = {
+    "C04": ("Lean 4 proof over a rule-by-rule mirror of the classic optimiser (optimize_sexp, NodePath, pattern matcher) + output-equality correspondence + consensus oracle",
+            "Every rewrite rule, sub_args, the path arithmetic (lookup_compose, the compose_paths loop, as_path/new) and the fixpoint driver are proved meaning-preserving and non-rejecting for arbitrary CLVM, any operator table with first/rest/cons, and all path byte patterns, on runs that avoid six decidable defect situations (strict-mode flags); each excluded situation is kernel-witnessed by a decide counterexample and replayed on the real code as an open finding: pair-headed forms, nil or top-bit path atoms under substitution, sign-extended and >=4-byte top-bit atoms in path_optimizer (get_u32 little-endian), very long path atoms (stack overflow). Memo transparency is proved; termination is not (fuel-bounded model). The model equals optimize_sexp / run_optimizer on 352k cases (quick: all trees <= 9 nodes over a reduced alphabet, grammar-exhaustive expressions, path atoms of 0..9 bytes in every class, f/r chains up to 80, re-rooting) and 1.47M (thorough); the oracle compares consensus values before and after optimisation.",
+            "Operators are a parameter; the full unconditioned statement is false on the unchanged tree (six open findings with proposed fix diffs); model<->code tie is differential.",
+            "DESIGN.md §4 C04"),
     "C19": ("Lean 4 invariant proof over a step model of the temp-file + rename protocol, plus kill-at-crash-point / strace / concurrent-process validation",
             "Kernel-checked, for every interleaving of any number of writers (atomic_write_file / gentle_overwrite as step programs over a names->inodes file system) and piecewise readers, every failing operation, every kill point, all data and write chunkings: the output path always holds its initial or some writer's complete contents; every reader assembles such a content; only a complete rename changes the target; a same-contents call returns Ok even if every later operation fails; an undisturbed fault-free call leaves exactly its data. Hypothesis: temp name != target name, shown necessary by a decide witness. The model is tied to the code by one child process per entry x previous state x directory mode x crash point (hook --cfg chialisp_verif) compared with the model (result, contents, hook sequence, leftovers), by strace traces mapped to the model's operation alphabet, and by 1-8 concurrent writer processes with polling readers.",
             "POSIX rename(2) atomicity, fd->inode binding and O_EXCL are assumptions built into the model; partial writes inside write_all are seen through strace and RLIMIT_FSIZE only; durability across power loss is not claimed; the model<->code tie is differential.",
